@@ -12,7 +12,9 @@ pub type ResId = u8;
 /// Task output. `Ok(0..4)` or `Err(0..4)`.
 pub type Out = Result<u8, u8>;
 
-pub const NVARS: usize = 4;
+pub const NVARS: usize = 5;
+/// Variables the generators assign; variable 4 is reserved (mode switch of role-changing programs).
+pub const GVARS: usize = 4;
 
 #[derive(Serialize, Deserialize, Clone, Debug, PartialEq, Eq, Hash)]
 pub enum Expr {
@@ -22,6 +24,8 @@ pub enum Expr {
   Mul(Box<Expr>, Box<Expr>),
   Eq(Box<Expr>, Box<Expr>),
   Lt(Box<Expr>, Box<Expr>),
+  /// if c != 0 { a } else { b }
+  Ite(Box<Expr>, Box<Expr>, Box<Expr>),
 }
 
 impl Expr {
@@ -34,6 +38,7 @@ impl Expr {
       Expr::Mul(a, b) => (a.eval(env) * b.eval(env)) % 8,
       Expr::Eq(a, b) => (a.eval(env) == b.eval(env)) as u8,
       Expr::Lt(a, b) => (a.eval(env) < b.eval(env)) as u8,
+      Expr::Ite(c, a, b) => if c.eval(env) != 0 { a.eval(env) } else { b.eval(env) },
     }
   }
   pub fn pretty(&self) -> String {
@@ -44,6 +49,7 @@ impl Expr {
       Expr::Mul(a, b) => format!("({}*{})", a.pretty(), b.pretty()),
       Expr::Eq(a, b) => format!("({}=={})", a.pretty(), b.pretty()),
       Expr::Lt(a, b) => format!("({}<{})", a.pretty(), b.pretty()),
+      Expr::Ite(c, a, b) => format!("({}?{}:{})", c.pretty(), a.pretty(), b.pretty()),
     }
   }
 }
